@@ -6,13 +6,30 @@ root = os.path.dirname(os.path.dirname(os.path.abspath(__file__)))
 base = json.load(open(f"{root}/manifest_parts/_base.json"))
 ids = [json.loads(l)["id"] for l in open(f"{root}/properties.jsonl")]
 checks = []
+allow = set(open(f"{root}/manifest_parts/_claimed.txt").read().split())
 for pid in ids:
     p = f"{root}/manifest_parts/{pid}.json"
-    if os.path.exists(p):
+    if pid in allow and os.path.exists(p):
         checks.append(json.load(open(p)))
+import re
+def guess_targets(pid):
+    out = [f"Props.{pid}"]
+    seen, todo = set(), [f"{root}/harness/props/{pid.lower()}.py"]
+    while todo:
+        f = todo.pop()
+        if f in seen or not os.path.exists(f):
+            continue
+        seen.add(f)
+        src = open(f).read()
+        for d in re.findall(r"drv_[a-z]+", src):
+            if d not in out:
+                out.append(d)
+        for m in re.findall(r"harness\.(impl|gen)\.(\w+)", src) + re.findall(r"from harness\.(impl|gen) import (\w+)", src):
+            todo.append(f"{root}/harness/{m[0]}/{m[1]}.py")
+    return out
 targets = []
 for c in checks:
-    for t in c.pop("lean_targets", []):
+    for t in (c.pop("lean_targets", None) or guess_targets(c["property_id"])):
         if t not in targets:
             targets.append(t)
 claimed = {c["property_id"] for c in checks}
